@@ -104,7 +104,8 @@ let run line =
                    out := (if op.[0] = 'V' then Printf.sprintf "%s %s" (err_name t'.err) v else Printf.sprintf "parse %s" vw) :: !out))
            | 'D' ->
              (* json_object_from_fd_ex(fd, depth) on the given bytes: depth -1 = default 32; the
-                accumulated bytes are parsed in one call with their explicit length *)
+                accumulated bytes are parsed with their explicit length, then (when that call asks for more input)
+                the terminating NUL is passed on: TokFd.from_fd_parse *)
              (match String.split_on_char ',' body with
               | [dstr; h] ->
                 let dreq = int_of_string dstr in
@@ -112,10 +113,47 @@ let run line =
                 (match tok_new (z_of_int deff) false false false with
                  | None -> out := "fd -" :: !out
                  | Some tf ->
-                   (match parse_ex strtod_bits tf (bytes_of_hex h) with
-                    | PR (_, Some v) -> out := ("fd " ^ string_of_jv v) :: !out
+                   (match from_fd_parse strtod_bits tf (bytes_of_hex h) with
+                    | PR (_, Some v) -> out := ("fd " ^ (if v = JNull then "-" else string_of_jv v)) :: !out   (* a JSON null is the NULL pointer, like a failure *)
                     | _ -> out := "fd -" :: !out))
               | _ -> failwith "D op")
+           | 'E' ->
+             (* the same through a descriptor that delivers the bytes in slices: what arrives is what was sent *)
+             (match String.split_on_char ',' body with
+              | dstr :: h :: _ ->
+                let dreq = int_of_string dstr in
+                let deff = if dreq = -1 then 32 else dreq in
+                (match tok_new (z_of_int deff) false false false with
+                 | None -> out := "fd -" :: !out
+                 | Some tf ->
+                   (match from_fd_parse strtod_bits tf (bytes_of_hex h) with
+                    | PR (_, Some v) -> out := ("fd " ^ (if v = JNull then "-" else string_of_jv v)) :: !out   (* a JSON null is the NULL pointer, like a failure *)
+                    | _ -> out := "fd -" :: !out))
+              | _ -> failwith "E op")
+           | 'B' when !dead -> out := "skipped" :: !out
+           | 'B' ->
+             (* a NUL-terminated input of n bytes, len = -1: the size guard of TokSize.parse_api refuses
+                strlen >= INT32_MAX; below that the character-level model runs (small n only) *)
+             (match String.split_on_char ',' body with
+              | [m; ns] ->
+                let n = int_of_string ns in
+                if size_guard_n true (z_of_string ns) (z_of_string "-1") then begin
+                  dead := true; out := "size 0 -" :: !out
+                end else begin
+                  let mode = int_of_string m in
+                  let fill = if mode = 2 then 32 else 97 in
+                  let bs = List.init n (fun i ->
+                    z_of_int (if mode = 0 && i = 0 then 34 else if mode = 1 && n >= 2 && i = 0 then 47 else if mode = 1 && n >= 2 && i = 1 then 42
+                              else if mode = 2 && i = 0 then 55 else fill)) in
+                  (match parse_ex_cstr strtod_bits !t bs with
+                   | PRFuel -> out := "FUEL" :: !out; raise Exit
+                   | PR (t', ret) ->
+                     t := t';
+                     dead := (match t'.err with TE_success | TE_continue -> false | _ -> true);
+                     let v = match ret with Some v -> string_of_jv v | None -> "-" in
+                     out := Printf.sprintf "%s %s %s" (err_name t'.err) (string_of_z t'.char_offset) v :: !out)
+                end
+              | _ -> failwith "B op")
            | 'R' -> t := tok_reset !t; dead := false; out := "reset" :: !out
            | 'N' -> t := t0; dead := false; out := "new" :: !out
            | 'L' -> out := "locale" :: !out   (* the caller's locale: not an input of the model (locale independence is C14) *)
